@@ -2,6 +2,8 @@ package main
 
 import (
 	"fmt"
+	"os"
+	"runtime"
 	"sort"
 	"sync"
 	"time"
@@ -225,33 +227,75 @@ func Discharge(obs []*Oblig, timeoutS int, all bool) []*ObResult {
 			hard = append(hard, o)
 		}
 	}
+	// wall-clock budgets are scaled by the machine's load: on an oversubscribed machine a solver gets a fraction of a
+	// core, and a speculative lemma that misses its budget makes the obligations that need it unprovable
+	scale := loadScale()
+	timeoutS = int(float64(timeoutS) * scale)
 	softT := timeoutS
-	if softT > 10 {
-		softT = 10
+	if softT > int(10*scale) {
+		softT = int(10 * scale)
 	}
-	for round := 0; round < 4 && len(soft) > 0; round++ {
-		var todo []*Oblig
+	softRounds := func(budget int) {
+		for round := 0; round < 4 && len(soft) > 0; round++ {
+			var todo []*Oblig
+			for _, o := range soft {
+				if !o.Group.Proven {
+					todo = append(todo, o)
+				}
+			}
+			if len(todo) == 0 {
+				break
+			}
+			runBatch(todo, budget, false)
+			progress := false
+			for _, o := range todo {
+				if o.Res.Result == "unsat" && !o.Group.Proven {
+					o.Group.Proven = true
+					progress = true
+				}
+			}
+			if !progress {
+				break
+			}
+		}
+	}
+	softRounds(softT)
+	// speculative lemmas that ran out of time (rather than being refuted) get a second, longer round before the
+	// obligations that may need them are attempted
+	starvedNow := func() int {
+		n := 0
 		for _, o := range soft {
-			if !o.Group.Proven {
-				todo = append(todo, o)
+			if !o.Group.Proven && o.Res.Result != "sat" && o.Res.Result != "unknown" {
+				n++
+				if os.Getenv("VERIF_DEBUG_SOFT") != "" {
+					fmt.Printf("  [soft lemma without answer: %s %s %.1fs]\n", o.Name, o.Res.Result, o.Res.Seconds)
+				}
 			}
 		}
-		if len(todo) == 0 {
-			break
-		}
-		runBatch(todo, softT, false)
-		progress := false
-		for _, o := range todo {
-			if o.Res.Result == "unsat" && !o.Group.Proven {
-				o.Group.Proven = true
-				progress = true
-			}
-		}
-		if !progress {
-			break
-		}
+		return n
+	}
+	if starvedNow() > 0 {
+		softRounds(softT * 4)
 	}
 	runBatch(hard, timeoutS, all)
+	// third chance: obligations that failed while speculative lemmas they may depend on ran out of time (rather than
+	// being refuted) are retried after those lemmas have had four times the budget
+	var failed []*Oblig
+	for _, o := range hard {
+		if !o.Trivial && !o.Cover && o.Res.Result != "unsat" && o.Res.Result != "sat" && len(o.Lemmas) > 0 {
+			failed = append(failed, o)
+		}
+	}
+	starved := false
+	for _, o := range soft {
+		if !o.Group.Proven && o.Res.Result != "sat" {
+			starved = true
+		}
+	}
+	if len(failed) > 0 && starved {
+		softRounds(softT * 4)
+		runBatch(failed, timeoutS*2, all)
+	}
 	// aggregate
 	coverSeen := map[string]*coverAgg{}
 	byName := map[string]*ObResult{}
@@ -370,4 +414,22 @@ type coverAgg struct {
 	feasible bool
 	last     *Oblig
 	res      *ObResult
+}
+
+// loadScale returns max(1, load average / number of CPUs), capped at 4.
+func loadScale() float64 {
+	b, err := os.ReadFile("/proc/loadavg")
+	if err != nil {
+		return 1
+	}
+	var l1 float64
+	fmt.Sscanf(string(b), "%f", &l1)
+	sc := l1 / float64(runtime.NumCPU())
+	if sc < 1 {
+		return 1
+	}
+	if sc > 4 {
+		return 4
+	}
+	return sc
 }
